@@ -295,7 +295,7 @@ def rotate_family(tier, seed):
        functions=['dump.conventional_to_primitive', 'dump.primitive_to_conventional'],
        clause='conventional-to-primitive and primitive-to-conventional conversions are re-expressions of the same crystal (atom count scales by the lattice-point multiplicity, every atom maps back modulo the '
               'lattice onto an original atom of the same type) and undo one another',
-       rule='centred cells {fcc f, bcc i, bct i, fco f, base-centred c / a, 2-type fcc} each with origin 0 and a non-lattice origin; distinct by (cell, origin); non-trivial = every case')
+       rule='centred cells {fcc f, bcc i, bct i, fco f, base-centred c / a / b, rhombohedral in the hexagonal setting t1 / t2 with a 2-type basis, 2-type fcc} each with origin 0 and a non-lattice origin; distinct by (cell, origin); non-trivial = every case')
 def conversions_family(tier, seed):
     from pyvc.native import atomman
     import numpy as np
@@ -309,6 +309,12 @@ def conversions_family(tier, seed):
     cells['fco'] = (am.Box.orthorhombic(3.0, 4.0, 5.0), fccpos, [1] * 4, 'f', 4)
     cells['sco_c'] = (am.Box.orthorhombic(3.0, 4.0, 5.0), [[0, 0, 0], [0.5, 0.5, 0]], [1, 1], 'c', 2)
     cells['sco_a'] = (am.Box.orthorhombic(3.0, 4.0, 5.0), [[0, 0, 0], [0, 0.5, 0.5]], [1, 1], 'a', 2)
+    cells['sco_b'] = (am.Box.orthorhombic(3.0, 4.0, 5.0), [[0, 0, 0], [0.5, 0, 0.5]], [1, 1], 'b', 2)
+    # rhombohedral lattices in the hexagonal setting: obverse (t1) and reverse (t2) centring points, a 2-type basis
+    cells['rhomb_t1'] = (am.Box.hexagonal(3.2, 7.8), [[0, 0, 0], [2 / 3, 1 / 3, 1 / 3], [1 / 3, 2 / 3, 2 / 3], [0, 0, 0.25], [2 / 3, 1 / 3, 1 / 3 + 0.25], [1 / 3, 2 / 3, 2 / 3 + 0.25]],
+                         [1, 1, 1, 2, 2, 2], 't1', 3)
+    cells['rhomb_t2'] = (am.Box.hexagonal(3.2, 7.8), [[0, 0, 0], [1 / 3, 2 / 3, 1 / 3], [2 / 3, 1 / 3, 2 / 3], [0, 0, 0.25], [1 / 3, 2 / 3, 1 / 3 + 0.25], [2 / 3, 1 / 3, 2 / 3 + 0.25]],
+                         [1, 1, 1, 2, 2, 2], 't2', 3)
     fails, samples = [], []
     evals = 0
     for cname, (box, spos, atype, setting, mult) in cells.items():
